@@ -978,6 +978,10 @@ class Fold:
                 self.exits.append(("continue", self.loop_marks[-1], list(self.guards)))
             raise LoopContinue()
         elif k == "break":
+            bt = getattr(self, "break_targets", [])
+            if bt and bt[-1][0] == "loop":
+                self.break_states = getattr(self, "break_states", [])
+                self.break_states.append((bt[-1][1], list(self.guards), env.copy()))
             raise LoopBreak()
         elif k == "try":
             self.stmt(s["block"], env)
@@ -1190,10 +1194,14 @@ class Fold:
         mark = len(self.guards)
         self.guards.append((("loop", lid, cond), True, s))
         self.begin_loop()
+        self.break_targets = getattr(self, "break_targets", [])
+        self.break_targets.append(("loop", lid))
         try:
             self.stmt(s["body"], benv)
         except Terminated:
             pass
+        finally:
+            self.break_targets.pop()
         self.end_loop(benv)
         try:
             if k == "for" and s.get("inc") is not None:
@@ -1207,6 +1215,23 @@ class Fold:
             for l_ in getattr(self, "loops", []):
                 if l_["lid"] == lid:
                     l_["step"] = {key: benv.get(key) for key in start}
+        # states captured at `break`: a variable written on the way to a break leaves the loop with that value if some iteration breaks
+        brk = [b_ for b_ in getattr(self, "break_states", []) if b_[0] == lid]
+        self.break_states = [b_ for b_ in getattr(self, "break_states", []) if b_[0] != lid]
+        brk_vals = {}
+        for _lid, bguards, b_env in brk:
+            bc = None
+            for c_, pol_, _n in bguards[mark + 1:]:
+                t_ = c_ if pol_ else ("!", c_)
+                bc = t_ if bc is None else ("&&", bc, t_)
+            for key, (old, a) in start.items():
+                bv = b_env.get(key)
+                if bv is not None and not self.same(bv, a):
+                    brk_vals.setdefault(key, []).append((bc, bv))
+        for l_ in getattr(self, "loops", []):
+            if l_["lid"] == lid:
+                l_["breaks"] = [(bc, {key: b_env.get(key) for key in start}) for (_l, bguards, b_env) in brk
+                                for bc in [self._conj(bguards[mark + 1:])]]
         # accumulation idioms
         for key, (old, a) in start.items():
             new = benv.get(key)
@@ -1214,6 +1239,19 @@ class Fold:
                 env[key] = a
                 continue
             env[key] = self.loop_result(old, a, new, lid, key)
+        for key, lst in brk_vals.items():
+            for bc, bv in lst:
+                if isinstance(bv, (tuple, Matrix)) or isinstance(env.get(key), (tuple, Matrix)):
+                    env[key] = S("%s_after_%s" % (self.keyname(key), lid))
+                else:
+                    env[key] = self.ite(("anyiter", lid, bc), bv, env.get(key))
+
+    def _conj(self, guards):
+        bc = None
+        for c_, pol_, _n in guards:
+            t_ = c_ if pol_ else ("!", c_)
+            bc = t_ if bc is None else ("&&", bc, t_)
+        return bc
 
     def begin_loop(self):
         self.loop_marks.append(len(self.guards))
@@ -1272,6 +1310,14 @@ class Fold:
         return F("LOOP_" + lid)(self.scalarize(old), new.subs(a, S("acc")))
 
     def do_switch(self, s, env):
+        self.break_targets = getattr(self, "break_targets", [])
+        self.break_targets.append(("switch", None))
+        try:
+            return self._do_switch(s, env)
+        finally:
+            self.break_targets.pop()
+
+    def _do_switch(self, s, env):
         c = self.ev(s["cond"], env)
         body = s["body"]
         stmts = body["stmts"] if body.get("k") == "compound" else [body]
